@@ -262,6 +262,19 @@ def gen(name):
 HDR = '/- GENERATED by tools/extract.py from /repo on every check run. Do not edit. -/\n'
 
 
+def _tab_digits(repo, name):
+    """the 16 digits a `ToLowerBase16` member writes, read off its tabulated graph"""
+    import tabulate
+    t = tabulate.tables(repo, 'api')
+    if name == 'traceFlagsHex':
+        return bytes(t['flagsLower'][1][n][1] for n in range(16))
+    if name == 'traceIdHex':
+        row = dict((bytes(i), o) for i, o in t['traceIdLower'][1])[b'\x00']
+        return bytes(row[2 * n + 1] for n in range(16))
+    rows = dict((bytes(i), o) for i, o in t['spanIdLower'][1])
+    return bytes(rows[bytes([n // 8])][2 * (n % 8) + 1] for n in range(16))
+
+
 @gen('Hex')
 def gen_hex(repo):
     out = [HDR, 'namespace Otel.Gen\n']
@@ -269,20 +282,36 @@ def gen_hex(repo):
     for name, rel in (('traceIdHex', 'api/include/opentelemetry/trace/trace_id.h'),
                       ('spanIdHex', 'api/include/opentelemetry/trace/span_id.h'),
                       ('traceFlagsHex', 'api/include/opentelemetry/trace/trace_flags.h')):
-        txt = _strip_comments(_read(repo, rel))
-        fn = _one(r'void\s+ToLowerBase16\s*\(.*?\{(.*?)\n  \}', txt, f'ToLowerBase16 in {rel}').group(1)
-        m = _one(r'kHex\[\]\s*=\s*"((?:[^"\\]|\\.)*)"', fn, f'kHex table in {rel}')
-        tab = _c_string_literal(m.group(1))
-        if not re.search(r'>>\s*4\s*\)\s*&\s*0xF', fn) or not re.search(r'>>\s*0\s*\)\s*&\s*0xF', fn):
-            raise ShapeChanged(f'{rel}: ToLowerBase16 no longer has the (x>>4)&0xF / (x>>0)&0xF shape')
-        out.append(f'/-- `kHex` of `{rel}` -/\ndef {name} : List UInt8 := {lean_bytes(tab)}\n')
-    txt = _strip_comments(_read(repo, 'api/include/opentelemetry/trace/propagation/detail/hex.h'))
-    m = _one(r'kHexDigits\s*\[\s*256\s*\]\s*=\s*\{(.*?)\}', txt, 'kHexDigits[256]')
-    vals = [int(x) for x in re.findall(r'-?\d+', m.group(1))]
-    if len(vals) != 256:
-        raise ExtractError(f'kHexDigits has {len(vals)} entries')
-    out.append('/-- `kHexDigits` (int8_t table), each entry as its uint8_t bit pattern (-1 = 255) -/\n'
-               f'def kHexDigits : List UInt8 := {lean_bytes([v & 0xFF for v in vals])}\n')
+        try:
+            txt = _strip_comments(_read(repo, rel))
+            fn = _one(r'void\s+ToLowerBase16\s*\(.*?\{(.*?)\n  \}', txt, f'ToLowerBase16 in {rel}').group(1)
+            m = _one(r'kHex\[\]\s*=\s*"((?:[^"\\]|\\.)*)"', fn, f'kHex table in {rel}')
+            tab = _c_string_literal(m.group(1))
+            if not re.search(r'>>\s*4\s*\)\s*&\s*0xF', fn) or not re.search(r'>>\s*0\s*\)\s*&\s*0xF', fn):
+                raise ExtractError(f'{rel}: ToLowerBase16 no longer has the (x>>4)&0xF / (x>>0)&0xF shape')
+            out.append(f'/-- `kHex` of `{rel}` -/\ndef {name} : List UInt8 := {lean_bytes(tab)}\n')
+        except ExtractError:
+            # the source no longer has the recognised shape: fall back to the function's tabulated graph (tools/tabulate.py).  The
+            # digit of nibble n is the second character written for the byte n; that the whole function is the nibble-wise
+            # look-up in this table is proved against the complete graph in Props/TabHex.lean (tab_traceIdLower, ...).
+            tab = _tab_digits(repo, name)
+            out.append(f'/-- digits `ToLowerBase16` of `{rel}` writes for the nibbles 0..15 (from its tabulated graph: the source text '
+                       f'no longer has the `kHex[]` shape) -/\ndef {name} : List UInt8 := {lean_bytes(tab)}\n')
+    try:
+        txt = _strip_comments(_read(repo, 'api/include/opentelemetry/trace/propagation/detail/hex.h'))
+        m = _one(r'kHexDigits\s*\[\s*256\s*\]\s*=\s*\{(.*?)\}', txt, 'kHexDigits[256]')
+        vals = [int(x) for x in re.findall(r'-?\d+', m.group(1))]
+        if len(vals) != 256:
+            raise ExtractError(f'kHexDigits has {len(vals)} entries')
+        out.append('/-- `kHexDigits` (int8_t table), each entry as its uint8_t bit pattern (-1 = 255) -/\n'
+                   f'def kHexDigits : List UInt8 := {lean_bytes([v & 0xFF for v in vals])}\n')
+    except ExtractError:
+        # no 256-entry table literal any more (e.g. rewritten as arithmetic): the complete graph of `HexToInt` is the table
+        import tabulate
+        vals = tabulate.tables(repo, 'api')['hexToInt'][1]
+        out.append('/-- the complete graph of `HexToInt` (uint8_t bit pattern, -1 = 255), from tools/tabulate.py: the source has no '
+                   '`kHexDigits[256]` literal any more -/\n'
+                   f'def kHexDigits : List UInt8 := {lean_bytes([v & 0xFF for v in vals])}\n')
     txt = _strip_comments(_read(repo, 'api/include/opentelemetry/trace/propagation/http_trace_context.h'))
     for c in ('kVersionSize', 'kTraceIdSize', 'kSpanIdSize', 'kTraceFlagsSize', 'kTraceParentSize'):
         out.append(f'def {c} : Nat := {_int_const(txt, c)}\n')
